@@ -133,6 +133,36 @@ impl Acc {
     }
 }
 
+impl crate::isolate::Wire for Acc {
+    fn to_value(&self) -> Value {
+        json!({
+            "evaluations": self.evaluations,
+            "outcomes": self.outcomes,
+            "spaces": self.spaces,
+            "not_judged": self.not_judged,
+            "violations": self.violations.iter().map(|v| json!({"sig": v.sig, "what": v.what, "case": v.case})).collect::<Vec<_>>(),
+            "samples": self.samples,
+            "nontrivial": self.nontrivial,
+            "gates": self.gates,
+        })
+    }
+    fn from_value(v: &Value) -> Acc {
+        let map = |x: &Value| -> BTreeMap<String, u64> {
+            x.as_object().map(|o| o.iter().map(|(k, v)| (k.clone(), v.as_u64().unwrap_or(0))).collect()).unwrap_or_default()
+        };
+        Acc {
+            evaluations: v["evaluations"].as_u64().unwrap_or(0),
+            outcomes: map(&v["outcomes"]),
+            spaces: map(&v["spaces"]),
+            not_judged: map(&v["not_judged"]),
+            violations: v["violations"].as_array().map(|a| a.iter().map(|x| Violation { sig: x["sig"].as_str().unwrap_or("").to_string(), what: x["what"].as_str().unwrap_or("").to_string(), case: x["case"].clone() }).collect()).unwrap_or_default(),
+            samples: v["samples"].as_object().map(|o| o.iter().map(|(k, v)| (k.clone(), v.clone())).collect()).unwrap_or_default(),
+            nontrivial: v["nontrivial"].as_u64().unwrap_or(0),
+            gates: v["gates"].as_array().map(|a| a.iter().filter_map(|x| x.as_str().map(|s| s.to_string())).collect()).unwrap_or_default(),
+        }
+    }
+}
+
 pub struct Known {
     /// (property, signature, text)
     pub known: Vec<(String, String, String)>,
@@ -305,6 +335,13 @@ pub fn finish(
         by_sig.len() - new_violations,
         ctx.start.elapsed().as_secs_f64()
     ));
+    let machinery = crate::isolate::take_machinery_errors();
+    if !machinery.is_empty() {
+        for m in &machinery {
+            ctx.say(&format!("MACHINERY ERROR: {m}"));
+        }
+        return 2;
+    }
     if !missing_gates.is_empty() {
         ctx.say(&format!(
             "MACHINERY ERROR: vacuous exploration, gates not observed: {missing_gates:?}"
